@@ -97,6 +97,10 @@ def main():
             text += (f" The decision logic of {GUARDS[pid]} is re-translated from the source into Lean on every run (translate/py2lean_guards.py → LK/Generated/Guards{pid}.lean) "
                      f"and proved to be the model's (LK/Proofs/Guards{pid}.lean); a broken obligation triggers the failing-input search.")
             tech += " + per-run translation of decision logic with proof obligations"
+        if pid == "C20":
+            text += (" sample_negatives / _check_negatives / _check_negatives_and_resample are re-translated on every run into one function recursing on the attempt budget (translate/py2lean_neg.py → LK/Generated/NegC20.lean) "
+                     "and proved equal to the model's sampleVerified (sampleT_eq).")
+            tech += " + per-run translation of the verified sampler proved equal to the model"
         if pid == "C12":
             text += (" What the batch runner registers, what its worker asks of the pipeline for one key, and the length batch.recommend forwards are recorded on every run and proved to be the worker model's "
                      "(LK/Model/BatchWorker.lean, LK/Proofs/BatchTraceC12.lean: one call per invocation, each with its own inputs only; n forwarded as given).")
